@@ -8,10 +8,12 @@
     * under NF, StrictEquals/SameAs as coded, the hash preimage and the property-key encoding identify
       exactly the strings with equal units; CompareTo is the lexicographic order of units;
     * code units are never rewritten (lone surrogates survive).
-  Two places where the CURRENT code departs from the property are stated as `_witness` theorems
-  (negation on a concrete input) next to the conditional/`_partial` version.
+  Nothing is `_partial`: the model transcribes the code after the fixes 58560e3, ef621e6, 3293be7 and 7f47297.
+  The mechanisms those fixes replaced survive only as regression lemmas (`…_prefix_witness`,
+  `writeSubstring_unconditional_flag_breaks_nf`, `imported_invalid_spellings_equal`).
 -/
 import GojaModel.C06.Lemmas
+import GojaModel.C06.Utf8
 namespace GojaModel.C06
 
 /-! ## constructors -/
@@ -78,38 +80,40 @@ theorem uniConcat_units (s : List UInt16) (y : Str) : units (uniConcat s y) = s 
 theorem utf16_append (a b : List Nat) : utf16 (a ++ b) = utf16 a ++ utf16 b := by
   simp [utf16]
 
-/-- concat refines list append, for all 3×3 representation pairs; for the unscanned+unscanned shortcut
-(which joins the Go BYTES) under the hypothesis that decoding splits at the junction. -/
-theorem concat_units (x y : Str)
-    (hsplit : ∀ s t, x = .imp s false → y = .imp t false → decode (s ++ t) = decode s ++ decode t) :
-    units (concat x y) = units x ++ units y := by
+/-- Go's lenient decoding splits at a junction whose right side is empty or starts with a rune-start byte -/
+theorem decode_append_of_junctionSafe (s t : List UInt8) (ht : junctionSafe t = true) :
+    decode (s ++ t) = decode s ++ decode t :=
+  decodeS_append ht s 0 (Nat.zero_le _)
+
+/-- concat refines list append, for ALL 3×3 representation pairs, unconditionally — including the
+unscanned+unscanned shortcut, which joins the Go BYTES only when the junction is safe (3293be7). -/
+theorem concat_units (x y : Str) : units (concat x y) = units x ++ units y := by
   unfold concat
   split
-  · next s t => simp [units, hsplit s t rfl rfl, utf16_append]
+  · next s t =>
+    split
+    · rename_i hj
+      simp [units, decode_append_of_junctionSafe s t hj, utf16_append]
+    · rw [← devirt_units (.imp s false)]
+      cases devirt (.imp s false) <;> simp [dvConcat, asciiConcat_units, uniConcat_units, DV.units]
   · rw [← devirt_units x]
     cases devirt x <;> simp [dvConcat, asciiConcat_units, uniConcat_units, DV.units]
 
-/-- The hypothesis of `concat_units` cannot be dropped for the code as it is: two imported strings, each
-longer than 16 bytes and not yet scanned, whose junction splits a UTF-8 sequence (… C3 | A9 …).  Their
-concatenation has 41 units, the operands 21 + 21.  (KNOWN FINDING, fixes/C06-concat-imported-boundary.diff) -/
-theorem concat_shortcut_not_units_witness :
-    ¬ ∀ x y : Str, units (concat x y) = units x ++ units y := by
+/-- Regression lemma about the OLD mechanism (before 3293be7, no junction guard): two imported strings, each
+longer than 16 bytes and not yet scanned, whose junction splits a UTF-8 sequence (… C3 | A9 …) were fused:
+41 units instead of 21 + 21. -/
+theorem concat_shortcut_prefix_witness :
+    ¬ ∀ x y : Str, units (concatOld x y) = units x ++ units y := by
   intro h
   have := h (toValue (List.replicate 20 0x61 ++ [0xC3])) (toValue (0xA9 :: List.replicate 20 0x62))
   have := congrArg List.length this
   revert this
   decide
 
-/-- a sufficient condition for the shortcut: the left operand is ASCII -/
-theorem decode_append_ascii_left : ∀ {s : List UInt8} (t : List UInt8), s.all asciiB = true →
-    decode (s ++ t) = decode s ++ decode t
-  | [], t, _ => rfl
-  | b :: bs, t, h => by
-    simp only [List.all_cons, Bool.and_eq_true] at h
-    have ih := decode_append_ascii_left t h.2
-    simp only [decode] at ih ⊢
-    simp only [List.cons_append, decodeS, decodeRune_ascii _ h.1]
-    simpa using ih
+/-- the same input through the current mechanism: the guard refuses the shortcut and the units are appended -/
+theorem concat_guard_on_prefix_witness_input :
+    (units (concat (toValue (List.replicate 20 0x61 ++ [0xC3])) (toValue (0xA9 :: List.replicate 20 0x62)))).length = 42 := by
+  decide
 
 theorem asciiConcat_nf {s : List UInt8} {y : Str} (hs : s.all asciiB = true) (hy : NF y) :
     NF (asciiConcat s y) := by
@@ -127,7 +131,13 @@ theorem uniConcat_nf {s : List UInt16} (y : Str) (hs : s.any nonAsciiU = true) :
 theorem nf_concat {x y : Str} (hx : NF x) (hy : NF y) : NF (concat x y) := by
   unfold concat
   split
-  · trivial
+  · next s t =>
+    split
+    · trivial
+    · have h := devirt_nf hx
+      cases hd : devirt (.imp s false) with
+      | a a => rw [hd] at h; exact asciiConcat_nf h hy
+      | u u => rw [hd] at h; exact uniConcat_nf _ h
   · have h := devirt_nf hx
     cases hd : devirt x with
     | a a => rw [hd] at h; exact asciiConcat_nf h hy
@@ -236,11 +246,9 @@ theorem strictEq_sound {a b : Str} (ha : NF a) (hb : NF b) (h : strictEq a b = t
     | uni t => simp [strictEq] at h
     | imp t sc =>
       simp only [strictEq] at h
-      split at h
-      · have : s = t := by simpa using h
-        subst this
-        simp [units, utf16_decode_ascii ha]
-      · cases h
+      have : s = t := by simpa using h
+      subst this
+      simp [units, utf16_decode_ascii ha]
   | uni s =>
     cases b with
     | ascii t => simp [strictEq] at h
@@ -255,11 +263,9 @@ theorem strictEq_sound {a b : Str} (ha : NF a) (hb : NF b) (h : strictEq a b = t
     cases b with
     | ascii t =>
       simp only [strictEq] at h
-      split at h
-      · cases h
-      · have : s = t := by simpa using h
-        subst this
-        simp [units, utf16_decode_ascii hb]
+      have : s = t := by simpa using h
+      subst this
+      simp [units, utf16_decode_ascii hb]
     | uni t =>
       simp only [strictEq] at h
       rcases scan_cases s with ⟨ht, hs⟩ | ⟨ht, hs⟩
@@ -278,15 +284,31 @@ theorem strictEq_sound {a b : Str} (ha : NF a) (hb : NF b) (h : strictEq a b = t
             simp [hs, ht] at h
           simp [units, h]
 
-/-- The one fact about UTF-8 itself that completeness needs in the imported/imported case: Go's decoder is
-injective on VALID strings (`if utf8.ValidString(i.s) && utf8.ValidString(otherStr.s) { return false }`,
-string_imported.go:121). -/
-def ValidDecodeInjective : Prop :=
-  ∀ s t : List UInt8, validUtf8 s = true → validUtf8 t = true → utf16 (decode s) = utf16 (decode t) → s = t
+/-- completeness for imported/imported; the `utf8.ValidString(a) && utf8.ValidString(b) → false` shortcut
+(string_imported.go:140) is justified by `valid_decode_injective` (Utf8.lean). -/
+theorem strictEq_complete_imported (s t : List UInt8) (sc tc : Bool)
+    (h : units (.imp s sc) = units (.imp t tc)) : strictEq (.imp s sc) (.imp t tc) = true := by
+  simp only [units] at h
+  simp only [strictEq]
+  split
+  · rfl
+  · rename_i hne
+    have hne' : s ≠ t := by simpa using hne
+    split
+    · rename_i hv
+      simp only [Bool.and_eq_true] at hv
+      exact absurd (valid_decode_injective s t hv.1 hv.2 h) hne'
+    · rcases scan_cases s with ⟨hs1, hs⟩ | ⟨hs1, hs⟩ <;> rcases scan_cases t with ⟨ht1, ht⟩ | ⟨ht1, ht⟩
+      · rw [utf16_decode_ascii hs1, utf16_decode_ascii ht1] at h
+        exact absurd (map_b2u_inj h) hne'
+      · rw [utf16_decode_ascii hs1] at h
+        exact absurd h (ascii_ne_nonascii hs1 (decode_nonascii ht1))
+      · rw [utf16_decode_ascii ht1] at h
+        exact absurd h.symm (ascii_ne_nonascii ht1 (decode_nonascii hs1))
+      · simp [hs, ht, h]
 
-/-- completeness for every pair in which at most one side is an imported string — full strength -/
-theorem strictEq_complete {a b : Str} (ha : NF a) (hb : NF b)
-    (hrep : ∀ s sc t tc, ¬ (a = .imp s sc ∧ b = .imp t tc)) (h : units a = units b) : strictEq a b = true := by
+/-- completeness, all nine pairs, unconditional: NF strings with equal units are `===` -/
+theorem strictEq_complete {a b : Str} (ha : NF a) (hb : NF b) (h : units a = units b) : strictEq a b = true := by
   cases a with
   | ascii s =>
     cases b with
@@ -296,8 +318,7 @@ theorem strictEq_complete {a b : Str} (ha : NF a) (hb : NF b)
       simp only [units] at h
       rcases scan_cases t with ⟨ht, hs⟩ | ⟨ht, hs⟩
       · rw [utf16_decode_ascii ht] at h
-        have : s = t := map_b2u_inj h
-        cases sc <;> simp [strictEq, impU, hs, this]
+        simp [strictEq, map_b2u_inj h]
       · exact absurd h (ascii_ne_nonascii ha (decode_nonascii ht))
   | uni s =>
     cases b with
@@ -315,9 +336,7 @@ theorem strictEq_complete {a b : Str} (ha : NF a) (hb : NF b)
       simp only [units] at h
       rcases scan_cases s with ⟨ht, hs⟩ | ⟨ht, hs⟩
       · rw [utf16_decode_ascii ht] at h
-        have : s = t := map_b2u_inj h
-        subst this
-        cases sc <;> simp [strictEq, impU, hs]
+        simp [strictEq, map_b2u_inj h]
       · exact absurd h.symm (ascii_ne_nonascii hb (decode_nonascii ht))
     | uni t =>
       simp only [units] at h
@@ -325,42 +344,21 @@ theorem strictEq_complete {a b : Str} (ha : NF a) (hb : NF b)
       · rw [utf16_decode_ascii ht] at h
         exact absurd h (ascii_ne_nonascii ht hb)
       · simp [strictEq, hs, h]
-    | imp t tc => exact absurd ⟨rfl, rfl⟩ (hrep s sc t tc)
+    | imp t tc => exact strictEq_complete_imported s t sc tc h
 
-/-- completeness for imported/imported, given injectivity of UTF-8 decoding on valid strings.
-`_partial`: `ValidDecodeInjective` is a hypothesis (a fact about UTF-8, not about goja), not proved here. -/
-theorem strictEq_complete_imported_partial (hinj : ValidDecodeInjective) (s t : List UInt8) (sc tc : Bool)
-    (h : units (.imp s sc) = units (.imp t tc)) : strictEq (.imp s sc) (.imp t tc) = true := by
-  simp only [units] at h
-  simp only [strictEq]
-  split
-  · rfl
-  · rename_i hne
-    have hne' : s ≠ t := by simpa using hne
-    split
-    · rename_i hv
-      simp only [Bool.and_eq_true] at hv
-      exact absurd (hinj s t hv.1 hv.2 h) hne'
-    · rcases scan_cases s with ⟨hs1, hs⟩ | ⟨hs1, hs⟩ <;> rcases scan_cases t with ⟨ht1, ht⟩ | ⟨ht1, ht⟩
-      · rw [utf16_decode_ascii hs1, utf16_decode_ascii ht1] at h
-        exact absurd (map_b2u_inj h) hne'
-      · rw [utf16_decode_ascii hs1] at h
-        exact absurd h (ascii_ne_nonascii hs1 (decode_nonascii ht1))
-      · rw [utf16_decode_ascii ht1] at h
-        exact absurd h.symm (ascii_ne_nonascii ht1 (decode_nonascii hs1))
-      · simp [hs, ht, h]
+/-- import: Go's decoder is injective on valid UTF-8 (proved in Utf8.lean by re-encoding) -/
+theorem import_injective_on_valid_utf8 (s t : List UInt8) (hs : validUtf8 s = true) (ht : validUtf8 t = true)
+    (h : units (.imp s false) = units (.imp t false)) : s = t :=
+  valid_decode_injective s t hs ht h
 
-/-- eq_iff_units: under NF, `===`/SameValue as coded ⇔ equal units.  `_partial` only through the
-`ValidDecodeInjective` hypothesis used by the imported/imported valid-UTF-8 shortcut. -/
-theorem eq_iff_units_partial (hinj : ValidDecodeInjective) {a b : Str} (ha : NF a) (hb : NF b) :
-    strictEq a b = true ↔ units a = units b := by
-  constructor
-  · exact strictEq_sound ha hb
-  · intro h
-    by_cases hr : ∃ s sc t tc, a = .imp s sc ∧ b = .imp t tc
-    · obtain ⟨s, sc, t, tc, rfl, rfl⟩ := hr
-      exact strictEq_complete_imported_partial hinj s t sc tc h
-    · exact strictEq_complete ha hb (fun s sc t tc hh => hr ⟨s, sc, t, tc, hh⟩) h
+/-- eq_iff_units: under NF, `===` / SameValue as coded ⇔ equal units — all nine pairs, no hypothesis -/
+theorem eq_iff_units {a b : Str} (ha : NF a) (hb : NF b) : strictEq a b = true ↔ units a = units b :=
+  ⟨strictEq_sound ha hb, strictEq_complete ha hb⟩
+
+/-- StrictEquals is transitive on NF strings (corollary of eq_iff_units) -/
+theorem strictEq_trans {a b c : Str} (ha : NF a) (hb : NF b) (hc : NF c)
+    (h1 : strictEq a b = true) (h2 : strictEq b c = true) : strictEq a c = true :=
+  (eq_iff_units ha hc).mpr (((eq_iff_units ha hb).mp h1).trans ((eq_iff_units hb hc).mp h2))
 
 /-- the regression repaired by ef621e6: comparing imported strings by their Go bytes is not enough —
 "\xff" and "\xfe" are different bytes with the same units, and the code as it is now answers `true`. -/
@@ -382,13 +380,11 @@ theorem strictEq_symm (a b : Str) : strictEq a b = strictEq b a := by
       rw [beq_eq_false_iff_ne.mpr h, beq_eq_false_iff_ne.mpr h']
   cases a <;> cases b <;> simp only [strictEq]
   · exact e8 _ _
-  · rename_i s t sc
-    cases h : impU t sc <;> simp [e8 s t]
+  · exact e8 _ _
   · exact e16 _ _
   · rename_i s t sc
     cases scan t <;> simp [e16]
-  · rename_i s sc t
-    cases h : impU s sc <;> simp [e8 s t]
+  · exact e8 _ _
   · rename_i s sc t
     cases scan s <;> simp [e16]
   · rename_i s sc t tc
@@ -459,10 +455,10 @@ theorem hashpre_iff_units {a b : Str} (ha : NF a) (hb : NF b) : hashPre a = hash
 theorem key_injective {a b : Str} (ha : NF a) (hb : NF b) : keyOf a = keyOf b ↔ units a = units b :=
   hashpre_iff_units ha hb
 
-/-- Map/Set lookup (hash, then SameAs) and `===` agree: equal hash preimage ⇔ StrictEquals (given injective decoding) -/
-theorem hash_agrees_with_strictEq_partial (hinj : ValidDecodeInjective) {a b : Str} (ha : NF a) (hb : NF b) :
+/-- Map/Set lookup (hash, then SameAs) and `===` agree: equal hash preimage ⇔ StrictEquals -/
+theorem hash_agrees_with_strictEq {a b : Str} (ha : NF a) (hb : NF b) :
     hashPre a = hashPre b ↔ strictEq a b = true := by
-  rw [hashpre_iff_units ha hb, eq_iff_units_partial hinj ha hb]
+  rw [hashpre_iff_units ha hb, eq_iff_units ha hb]
 
 theorem asUtf16_le16 {u : List UInt16} (hne : u ≠ []) : asUtf16 (le16 (BOM :: u)) = some u := by
   cases u with
@@ -800,19 +796,9 @@ theorem nf_concatStrings {l : List Str} (hl : ∀ x ∈ l, NF x) : NF (concatStr
 
 /-! ## lone surrogates: units are never rewritten -/
 
-/-- a unit of either operand is a unit of the concatenation (given the junction hypothesis of `concat_units`) -/
-theorem concat_mem (x y : Str)
-    (hsplit : ∀ s t, x = .imp s false → y = .imp t false → decode (s ++ t) = decode s ++ decode t) (c : UInt16) :
-    c ∈ units (concat x y) ↔ c ∈ units x ∨ c ∈ units y := by
-  rw [concat_units x y hsplit, List.mem_append]
-
-/-- the shortcut is safe whenever the left operand is ASCII -/
-theorem concat_units_ascii_left (s t : List UInt8) (hs : s.all asciiB = true) :
-    units (concat (.imp s false) (.imp t false)) = units (.imp s false) ++ units (.imp t false) := by
-  apply concat_units
-  intro s' t' h1 h2
-  cases h1; cases h2
-  exact decode_append_ascii_left t hs
+/-- a unit of either operand (a lone surrogate in particular) is a unit of the concatenation, and nothing else is -/
+theorem concat_mem (x y : Str) (c : UInt16) : c ∈ units (concat x y) ↔ c ∈ units x ∨ c ∈ units y := by
+  rw [concat_units x y, List.mem_append]
 
 /-! ## non-vacuity (tests on literals, not proofs of the property) -/
 
@@ -822,8 +808,8 @@ example : NF (.ascii [0x61, 0x62]) ∧ NF (.uni [0x61, 0xD800]) ∧ NF (.imp [0x
 -- the builder invariant holds in a state that is in UTF-16 mode with a non-ASCII unit
 example : (SB.empty.writeRune 0xD800).Inv := (sb_writeRune sb_inv_empty (by decide)).1
 example : (SB.empty.writeRune 0xD800).toStr = .uni [0xD800] := by decide
--- the hypothesis of concat_units holds, e.g., for an ASCII left operand
-example : decode ([0x61] ++ [0xA9]) = decode [0x61] ++ decode [0xA9] := decode_append_ascii_left _ (by decide)
+-- both branches of the guarded shortcut are reachable
+example : junctionSafe [0x62] = true ∧ junctionSafe [0xA9] = false := by decide
 -- three representations of "é" are pairwise StrictEqual in both directions
 example : strictEq (.uni [0xe9]) (.imp [0xc3, 0xa9] false) = true ∧ strictEq (.imp [0xc3, 0xa9] true) (.uni [0xe9]) = true := by
   decide
